@@ -601,7 +601,7 @@ def core_canon(mods, maxpay, nkeys=1):
     return canon
 
 
-CORE_WRAPS = ["-Wl,--wrap=epoll_wait,--wrap=write,--wrap=pipe,--wrap=close,--wrap=epoll_create1,--wrap=timerfd_create,--wrap=timerfd_settime,--wrap=pthread_join,--wrap=eventfd,--wrap=signalfd,--wrap=inotify_init1,--wrap=inotify_add_watch,--wrap=syscall"]
+CORE_WRAPS = ["-Wl,--wrap=epoll_wait,--wrap=write,--wrap=pipe,--wrap=close,--wrap=epoll_create1,--wrap=timerfd_create,--wrap=timerfd_settime,--wrap=pthread_join,--wrap=m_thpool_new,--wrap=eventfd,--wrap=signalfd,--wrap=inotify_init1,--wrap=inotify_add_watch,--wrap=syscall"]
 
 
 def build_core():
@@ -706,6 +706,7 @@ CORE_CFGS = {
     "stash": (["A", "B"], {"VP_CAP": "2", "VP_CTXPERSIST": "1", "VP_SETUP": "loop2", "VP_MAXPAY": "2"}),
     "kev": (["A", "B"], {"VP_CAP": "2", "VP_CTXPERSIST": "1", "VP_SETUP": "loop2", "VP_NKEYS": "1"}),
     "kevl": (["A", "B"], {"VP_CAP": "2", "VP_CTXPERSIST": "1", "VP_SETUP": "loop2", "VP_NKEYS": "1"}),
+    "tskq": (["A", "B"], {"VP_CAP": "2", "VP_CTXPERSIST": "1", "VP_SETUP": "loop2", "VP_NKEYS": "1", "VP_TASKS": "1", "VP_POOLSZ": "1"}),
     "tsk": (["A", "B"], {"VP_CAP": "2", "VP_CTXPERSIST": "1", "VP_SETUP": "loop2", "VP_NKEYS": "1", "VP_TASKS": "1"}),
     "become": (["A", "B"], {"VP_CAP": "2", "VP_CTXPERSIST": "1", "VP_SETUP": "loop2", "VP_MAXPAY": "1"}),
 }
@@ -827,7 +828,7 @@ def c09(prop, tier, seed):
 
 @check("C03")
 def c03(prop, tier, seed):
-    return core_check(prop, tier, seed, ["fdev", "ps2q", "subos", "kev", "kevl", "tsk", "rearm"], ["fdev", "ps2q", "subos", "kev", "kevl", "tsk", "rearm", "ps3", "pub2"],
+    return core_check(prop, tier, seed, ["fdev", "ps2q", "subos", "kev", "kevl", "tsk", "tskq", "rearm"], ["fdev", "ps2q", "subos", "kev", "kevl", "tsk", "tskq", "rearm", "ps3", "pub2"],
                       "Focus: events of descriptor / timer / pubsub / signal / path / pid / task sources reach their owner with the registration userdata only while RUNNING; one-shot removal; poll batches of several sources in every order; errno left behind by callbacks; loop ends only on quit / no running module. "
                       "Configurations marked .loop are replayed a second time in loop mode: the loop is driven by blocking m_ctx_loop() calls (top-level steps executed from inside the wrapped epoll_wait, the stopping dispatch being what m_ctx_loop does before returning the quit code) and must show the same deliveries, states and return code.",
                       Dq=5, Dt=7, loop_cfgs=["ps2q", "fdev", "life"], loop_cfgs_thorough=["tsk", "kev", "rearm", "subos"], sim_cfgs=["mix"])
@@ -847,8 +848,8 @@ def c18(prop, tier, seed):
 
 @check("C04")
 def c04(prop, tier, seed):
-    return core_check(prop, tier, seed, ["mem", "memfd", "life", "pub2", "tick", "stash", "tsk", "tb"],
-                      ["mem", "memfd", "tsk", "kev", "life", "ctx", "perm", "ps2q", "ps2", "pub2", "ps3", "bc2", "batch", "btmo", "stash", "stashb", "become", "fdev", "srca", "srcb", "subos", "tb", "tick"],
+    return core_check(prop, tier, seed, ["mem", "memfd", "life", "pub2", "tick", "stash", "tsk", "tskq", "tb"],
+                      ["mem", "memfd", "tsk", "tskq", "kev", "life", "ctx", "perm", "ps2q", "ps2", "pub2", "ps3", "bc2", "batch", "btmo", "stash", "stashb", "become", "fdev", "srca", "srcb", "subos", "tb", "tick"],
                       "C04 = memory and lifetime safety on every explored history: the union of the Core configurations replayed under ASan/UBSan "
                       "with the allocator ledger (nothing outstanding, nothing freed twice, in clean states), plus configurations in which the "
                       "program retains events beyond their invocation (and beyond the stop / deregistration of their module and the release of "
